@@ -6,9 +6,6 @@ import Avfs.Lemmas.Posix
   of the model has the outcome and the effect the reference names (`.outside` / `True` when a symbolic link is met).
 
   Corners where MemFS is not the reference (each excluded by an explicit hypothesis and stated on its own):
-  * open: O_CREAT|O_EXCL on an existing regular file the caller may not access in the asked mode: EACCES on MemFS
-    (EEXIST for a directory in the same situation, and on Linux for both): `openExclDenied`, `open_excl_denied`,
-    `open_excl_denied_gen`;
   * open: what ToOpenMode makes of O_RDONLY with O_CREAT / O_TRUNC / O_APPEND (write-only description) and with O_EXCL
     (neither readable nor writable): `toOpenMode_rdonly_creat`; all other flag combinations decode as open(2) says
     (`toOpenMode_plain`); `open_posix` itself holds for every flag value, over the decoded mode;
@@ -19,7 +16,8 @@ import Avfs.Lemmas.Posix
     `renameCorner`, `rename_corner_eexist`, `rename_corners`.
   Remark (order of checks that POSIX leaves open, the reference follows MemFS): `rename_same_denied`; Truncate checks
   the length before the path.
-  link(2), truncate(2), chmod(2) need no exclusion. "/" is covered for open (`open_root`), as the existing path of link
+  open(2), link(2), truncate(2), chmod(2) need no exclusion (O_CREAT|O_EXCL on an existing entry is EEXIST before the
+  permission of the entry is looked at, for a regular file as for a directory: `open_excl_exists`). "/" is covered for open (`open_root`), as the existing path of link
   and for truncate / chmod / chown; it is excluded (`hne…`) as path of rename and as new path of link.
 -/
 set_option linter.unusedVariables false
@@ -243,19 +241,10 @@ def truncated (s : Store) (c : Ino) : Store :=
 def handleOn (c : Ino) (name : Bytes) (om vid : Nat) : Handle :=
   { nd := some c, name := name, pos := 0, om := om, dirEntries := none, dirNames := none, dirIndex := 0, view := vid }
 
-/-- CORNER of MemFS (error precedence): O_CREAT|O_EXCL on an existing regular file the caller may not access in the
-    asked mode. MemFS checks the permission first (EACCES) — but for a directory it answers EEXIST first; open(2) on
-    Linux answers EEXIST for both. See `open_excl_denied`. -/
-def openExclDenied (s : Store) (v : View) (om : Nat) : Resolved → Bool
-  | .found _ c => om &&& omCreate != 0 && om &&& omExcl != 0 &&
-      (match s.get c with | some (.file m _ _ _) => !checkPerm m om v | _ => false)
-  | _ => false
-
 theorem open_posix_gen (s : Store) (root : Ino) (v : View) (hwf : WF s root)
     (hvr : ∃ m ch, s.get v.root = some (.dir m ch)) (cs : List Bytes) (hne : cs ≠ [])
     (hall : ∀ c ∈ cs, c ≠ [] ∧ ∀ x ∈ c, x ≠ SL) (hdots : ∀ c ∈ cs, c ≠ [DOT] ∧ c ≠ [DOT, DOT])
-    (vid flag perm : Nat)
-    (hcorner : openExclDenied s v (toOpenMode flag) (walkPath s v v.root cs) = false) :
+    (vid flag perm : Nat) :
     match posixOpen s v (toOpenMode flag) (walkPath s v v.root cs) with
     | .fail e => openFile s v vid (SL :: joinWith SL cs) flag perm = (s, .error e)
     | .create par name => name = cs.getLast hne ∧
@@ -268,11 +257,10 @@ theorem open_posix_gen (s : Store) (root : Ino) (v : View) (hwf : WF s root)
   have hf := searchNode_facts s root v hwf hvr cs hne hall hdots .eval
   have hcw := toOpenMode_create_write flag
   have hec := toOpenMode_excl_create flag
-  generalize hom : toOpenMode flag = om at hcw hec hcorner ⊢
+  generalize hom : toOpenMode flag = om at hcw hec ⊢
   cases hw : walkPath s v v.root cs with
   | found par c =>
     simp only [hw, WalkFacts] at hf
-    simp only [hw, openExclDenied] at hcorner
     obtain ⟨he, hc, hpar, hpart, hlast, hpath, hedge, hpd, hns, halloc⟩ := hf
     simp only [posixOpen]
     cases hg : s.get c with
@@ -295,11 +283,9 @@ theorem open_posix_gen (s : Store) (root : Ino) (v : View) (hwf : WF s root)
             · simp [openFile, hom, he, hc, hlast, hg, hx, hwr, hp]
           · simp [openFile, hom, he, hc, hlast, hg, hx, hwr]
       | file mf df nl id =>
-        simp only [hg] at hcorner
         by_cases hce : (om &&& omCreate != 0 && om &&& omExcl != 0) = true
         · have hx : om &&& omExcl ≠ 0 := by simp at hce; exact hce.2
-          have hp : checkPerm mf om v = true := by simpa [hce] using hcorner
-          simp [hce, openFile, hom, he, hc, hlast, hg, hx, hp]
+          simp [hce, openFile, hom, he, hc, hlast, hg, hx]
         · have hx : om &&& omExcl = 0 := by
             apply Classical.byContradiction
             intro h
@@ -335,12 +321,12 @@ theorem open_posix_gen (s : Store) (root : Ino) (v : View) (hwf : WF s root)
     regular file made by `createFile` (caller's identity, `perm &^ umask`) in the same directory under the last
     component, and a handle on it; or a handle on the existing node, a regular file being emptied first under O_TRUNC
     and nothing else changing. The handle carries the node, the path as name, offset 0 and the decoded open mode.
-    One corner is excluded (`hcorner`, see `openExclDenied` / `open_excl_denied`). What ToOpenMode makes of the flags
-    is a separate matter: `toOpenMode_plain`, `toOpenMode_rdonly_creat`. -/
+    No case is excluded; O_CREAT|O_EXCL on an existing entry is EEXIST whatever the permission of the entry
+    (`open_excl_exists`). What ToOpenMode makes of the flags is a separate matter: `toOpenMode_plain`,
+    `toOpenMode_rdonly_creat`. -/
 theorem open_posix (s : Store) (root : Ino) (v : View) (hwf : WF s root) (hn : NamesOK s) (hv : ViewOK s v)
     (hroot : v.root = root) (cs : List Bytes) (hne : cs ≠ []) (hall : ∀ c ∈ cs, c ≠ [] ∧ ∀ x ∈ c, x ≠ SL)
-    (hdots : ∀ c ∈ cs, c ≠ [DOT] ∧ c ≠ [DOT, DOT]) (vid flag perm : Nat)
-    (hcorner : openExclDenied s v (toOpenMode flag) (walkPath s v root cs) = false) :
+    (hdots : ∀ c ∈ cs, c ≠ [DOT] ∧ c ≠ [DOT, DOT]) (vid flag perm : Nat) :
     match posixOpen s v (toOpenMode flag) (walkPath s v root cs) with
     | .fail e => openFile s v vid (SL :: joinWith SL cs) flag perm = (s, .error e)
     | .create par name => name = cs.getLast hne ∧
@@ -351,7 +337,7 @@ theorem open_posix (s : Store) (root : Ino) (v : View) (hwf : WF s root) (hn : N
         (if tr then truncated s c else s, .ok (handleOn c (SL :: joinWith SL cs) (toOpenMode flag) vid))
     | .outside => True := by
   subst hroot
-  exact open_posix_gen s v.root v hwf (get_of_isDirAt hwf.rootDir) cs hne hall hdots vid flag perm hcorner
+  exact open_posix_gen s v.root v hwf (get_of_isDirAt hwf.rootDir) cs hne hall hdots vid flag perm
 
 /-- the flags of open(2) -/
 inductive OAccess | rdonly | wronly | rdwr
@@ -414,7 +400,7 @@ example : openFile pxStore exView 0 [SL, 116, 109, 112, SL, 120] 0xC1 0o644 =
       ((createFile pxStore exView 3 [120] 0o644).1,
        .ok (handleOn 10 [SL, 116, 109, 112, SL, 120] (omCreate ||| omExcl ||| omWrite) 0)) := by
   have h := open_posix pxStore 0 exView pxStore_wf.1 pxStore_wf.2 pxView_ok rfl [cTmp, [120]] (by simp)
-    (by decide) (by decide) 0 0xC1 0o644 (by decide +kernel)
+    (by decide) (by decide) 0 0xC1 0o644
   have hr : posixOpen pxStore exView (toOpenMode 0xC1) (walkPath pxStore exView 0 [cTmp, [120]]) = .create 3 [120] := by
     decide +kernel
   have hi : (createFile pxStore exView 3 [120] 0o644).2 = 10 := by decide +kernel
@@ -431,15 +417,15 @@ example : openFile pxStore px2Adm 0 [SL, 116, 109, 112, SL, 103] 0xC1 0o644 = (p
     openFile pxStore exView 0 [SL, 97, SL, 120] 0x41 0o644 = (pxStore, .error .EACCES) ∧
     openFile pxStore exView 0 [SL, 97, SL, 102] 1 0 = (pxStore, .error .EACCES) := by
   have h1 := open_posix pxStore 0 px2Adm pxStore_wf.1 pxStore_wf.2 px2Adm_ok rfl [cTmp, [103]] (by simp)
-    (by decide) (by decide) 0 0xC1 0o644 (by decide +kernel)
+    (by decide) (by decide) 0 0xC1 0o644
   have h2 := open_posix pxStore 0 exView pxStore_wf.1 pxStore_wf.2 pxView_ok rfl [cTmp, [121]] (by simp)
-    (by decide) (by decide) 0 0 0 (by decide +kernel)
+    (by decide) (by decide) 0 0 0
   have h3 := open_posix pxStore 0 exView pxStore_wf.1 pxStore_wf.2 pxView_ok rfl [cTmp, [100]] (by simp)
-    (by decide) (by decide) 0 1 0 (by decide +kernel)
+    (by decide) (by decide) 0 1 0
   have h4 := open_posix pxStore 0 exView pxStore_wf.1 pxStore_wf.2 pxView_ok rfl [cA, [120]] (by simp)
-    (by decide) (by decide) 0 0x41 0o644 (by decide +kernel)
+    (by decide) (by decide) 0 0x41 0o644
   have h5 := open_posix pxStore 0 exView pxStore_wf.1 pxStore_wf.2 pxView_ok rfl [cA, [102]] (by simp)
-    (by decide) (by decide) 0 1 0 (by decide +kernel)
+    (by decide) (by decide) 0 1 0
   have hr1 : posixOpen pxStore px2Adm (toOpenMode 0xC1) (walkPath pxStore px2Adm 0 [cTmp, [103]]) = .fail .EEXIST := by
     decide +kernel
   have hr2 : posixOpen pxStore exView (toOpenMode 0) (walkPath pxStore exView 0 [cTmp, [121]]) = .fail .ENOENT := by
@@ -463,9 +449,9 @@ example : openFile pxStore px2Adm 0 [SL, 97, SL, 102] 0x242 0o644 =
       (truncated pxStore 6, .ok (handleOn 6 [SL, 97, SL, 102] (omRead ||| omWrite ||| omCreate ||| omTrunc) 0)) ∧
     openFile pxStore exView 0 [SL, 97, SL, 102] 0 0 = (pxStore, .ok (handleOn 6 [SL, 97, SL, 102] omRead 0)) := by
   have h1 := open_posix pxStore 0 px2Adm pxStore_wf.1 pxStore_wf.2 px2Adm_ok rfl [cA, [102]] (by simp)
-    (by decide) (by decide) 0 0x242 0o644 (by decide +kernel)
+    (by decide) (by decide) 0 0x242 0o644
   have h2 := open_posix pxStore 0 exView pxStore_wf.1 pxStore_wf.2 pxView_ok rfl [cA, [102]] (by simp)
-    (by decide) (by decide) 0 0 0 (by decide +kernel)
+    (by decide) (by decide) 0 0 0
   have hr1 : posixOpen pxStore px2Adm (toOpenMode 0x242) (walkPath pxStore px2Adm 0 [cA, [102]]) = .opened 6 true := by
     decide +kernel
   have hr2 : posixOpen pxStore exView (toOpenMode 0) (walkPath pxStore exView 0 [cA, [102]]) = .opened 6 false := by
@@ -474,14 +460,16 @@ example : openFile pxStore px2Adm 0 [SL, 97, SL, 102] 0x242 0o644 =
   simp only [hr2] at h2
   exact ⟨h1, h2⟩
 
-/-- CORNER (error precedence, finding): OpenFile("/tmp/g", O_WRONLY|O_CREAT|O_EXCL) by the user 1000, "/tmp/g" being
-    the administrator's file of mode 0600: the reference (and open(2) on Linux) says EEXIST, MemFS EACCES — while for
-    the existing DIRECTORY "/a/b" (0700 of the administrator) MemFS itself says EEXIST.
+/-- Error precedence (witness; formerly a corner: MemFS used to check the permission of an existing regular file before
+    O_CREAT|O_EXCL and answered EACCES): OpenFile(…, O_WRONLY|O_CREAT|O_EXCL) by the user 1000 on "/tmp/g", the
+    administrator's file of mode 0600, and on the existing DIRECTORY "/a/b" (0700 of the administrator): the reference
+    (as open(2) on Linux) says EEXIST for both, and so does MemFS.
     History: memfs.New(); as root WriteFile("/tmp/g", …, 0600), Mkdir("/a", 0755), Mkdir("/a/b", 0700); as user 1000
-    OpenFile("/tmp/g", O_WRONLY|O_CREATE|O_EXCL, 0644) = EACCES, OpenFile("/a/b", same) = EEXIST. -/
-theorem open_excl_denied :
+    OpenFile("/tmp/g", O_WRONLY|O_CREATE|O_EXCL, 0644) = EEXIST, OpenFile("/a/b", same) = EEXIST. -/
+theorem open_excl_exists :
     posixOpen pxStore exView (toOpenMode 0xC1) (walkPath pxStore exView 0 [cTmp, [103]]) = .fail .EEXIST ∧
-    openFile pxStore exView 0 [SL, 116, 109, 112, SL, 103] 0xC1 0o644 = (pxStore, .error .EACCES) ∧
+    posixOpen pxStore exView (toOpenMode 0xC1) (walkPath pxStore exView 0 [cA, [98]]) = .fail .EEXIST ∧
+    openFile pxStore exView 0 [SL, 116, 109, 112, SL, 103] 0xC1 0o644 = (pxStore, .error .EEXIST) ∧
     openFile pxStore exView 0 [SL, 97, SL, 98] 0xC1 0o644 = (pxStore, .error .EEXIST) := by
   decide +kernel
 
@@ -523,36 +511,6 @@ theorem open_root (s : Store) (v : View) (hvr : ∃ m ch, s.get v.root = some (.
       · simp [openFile, hom, he, hc, hlast, hg, hx, hwr, hp]
     · simp [openFile, hom, he, hc, hlast, hg, hx, hwr]
 
-/-- DIVERGENCE (finding, general form of `open_excl_denied`): in the excluded corner MemFS answers EACCES where the
-    reference answers EEXIST -/
-theorem open_excl_denied_gen (s : Store) (root : Ino) (v : View) (hwf : WF s root) (hn : NamesOK s) (hv : ViewOK s v)
-    (hroot : v.root = root) (cs : List Bytes) (hne : cs ≠ []) (hall : ∀ c ∈ cs, c ≠ [] ∧ ∀ x ∈ c, x ≠ SL)
-    (hdots : ∀ c ∈ cs, c ≠ [DOT] ∧ c ≠ [DOT, DOT]) (vid flag perm : Nat)
-    (hcorner : openExclDenied s v (toOpenMode flag) (walkPath s v root cs) = true) :
-    posixOpen s v (toOpenMode flag) (walkPath s v root cs) = .fail .EEXIST ∧
-    openFile s v vid (SL :: joinWith SL cs) flag perm = (s, .error .EACCES) := by
-  subst hroot
-  have hf := searchNode_facts s v.root v hwf (get_of_isDirAt hwf.rootDir) cs hne hall hdots .eval
-  generalize hom : toOpenMode flag = om at hcorner ⊢
-  cases hw : walkPath s v v.root cs with
-  | found par c =>
-    simp only [hw, WalkFacts] at hf
-    simp only [hw, openExclDenied] at hcorner
-    obtain ⟨he, hc, hpar, hpart, hlast, hpath, hedge, hpd, hns, halloc⟩ := hf
-    obtain ⟨n, hg⟩ := Option.isSome_iff_exists.mp halloc
-    rw [hg] at hcorner
-    cases n with
-    | file mf df nl id =>
-      simp only [Bool.and_eq_true, Bool.not_eq_true', bne_iff_ne, ne_eq] at hcorner
-      obtain ⟨⟨h1, h2⟩, h3⟩ := hcorner
-      simp [posixOpen, h1, h2, openFile, hom, he, hc, hlast, hg, h3]
-    | dir md chd => simp at hcorner
-    | symlink ms lk => simp at hcorner
-  | missingLast par name => simp [hw, openExclDenied] at hcorner
-  | missingDir => simp [hw, openExclDenied] at hcorner
-  | notDir => simp [hw, openExclDenied] at hcorner
-  | denied => simp [hw, openExclDenied] at hcorner
-  | viaLink => simp [hw, openExclDenied] at hcorner
 /-! ### 2. link(2) -/
 
 inductive LinkRef
